@@ -1,65 +1,9 @@
-(* ChannelSrc.v — channel/read.go processReadBuf as the source has it on this run is the model's
-   Channel.process_read_buf (C01, C12: every prompt / echo search looks at this window). *)
+(* SendInputSrc.v — channel Channel.SendInputB as translated from the source vs Channel.send_input
+   (C01, C05, C06, C12). *)
 From Scrapli Require Import Bytes Regex PlatformTypes Generated Channel DecideLang GeneratedSkel.
 From Coq Require Import String List Bool Arith.
 Import ListNotations.
 Open Scope string_scope.
-
-(* the two tests: len(rb) <= searchDepth; partitionIdx > 0, where partitionIdx is
-   bytes.Index(prb, "\n") and prb the last searchDepth bytes *)
-Definition prb_env (short idx_pos : bool) : denv :=
-  mkEnvX (fun _ => false) (fun _ _ => false) (fun _ => "")
-         (fun a => if String.eqb a "len(rb) <= searchDepth" then Some short else None)
-         (fun _ _ _ => None) (fun _ => O)
-         (fun st a => if String.eqb a "partitionIdx > 0" then
-                        match sget st "partitionIdx", sget st "prb" with
-                        | Some i, Some p =>
-                            if String.eqb i "bytes.Index(prb, []byte(""\n""))" && String.eqb p "rb[len(rb)-searchDepth:]"
-                            then Some (Some idx_pos) else Some None
-                        | _, _ => Some None
-                        end
-                      else None).
-
-Inductive window := WWhole | WTail | WTailCut.
-
-Definition prb_run (short idx_pos : bool) : option window :=
-  match DecideLang.exec 12 (prb_env short idx_pos) process_read_buf_code [] with
-  | Returned st v =>
-      if String.eqb v "rb" then (match st with [] => Some WWhole | _ => None end)
-      else if String.eqb v "prb" then
-        match st with
-        | [("partitionIdx", _); ("prb", "rb[len(rb)-searchDepth:]")] => Some WTail
-        | [("prb", "prb[partitionIdx:]"); ("partitionIdx", _); ("prb", "rb[len(rb)-searchDepth:]")] => Some WTailCut
-        | _ => None
-        end
-      else None
-  | _ => None
-  end.
-
-Definition tail_of (rb : bytes) (sd : nat) : bytes := skipn (List.length rb - sd) rb.
-Definition lf_index_pos (b : bytes) : option nat := match index_of [LF] b with Some (S i) => Some (S i) | _ => None end.
-
-Definition window_of (rb : bytes) (sd : nat) (w : window) : bytes :=
-  match w with
-  | WWhole => rb
-  | WTail => tail_of rb sd
-  | WTailCut => match lf_index_pos (tail_of rb sd) with Some i => skipn i (tail_of rb sd) | None => tail_of rb sd end
-  end.
-
-(* THE TIE: for every buffer and every search depth *)
-Theorem process_read_buf_is_source : forall rb sd,
-  exists w, prb_run (Nat.leb (List.length rb) sd)
-                    (match lf_index_pos (tail_of rb sd) with Some _ => true | None => false end) = Some w
-            /\ process_read_buf rb sd = window_of rb sd w.
-Proof.
-  intros rb sd. unfold process_read_buf. destruct (Nat.leb (List.length rb) sd).
-  - exists WWhole. split; [destruct (lf_index_pos (tail_of rb sd)); reflexivity | reflexivity].
-  - cbv zeta. fold (tail_of rb sd). unfold lf_index_pos.
-    destruct (index_of [LF] (tail_of rb sd)) as [[|i]|] eqn:E.
-    + exists WTail. split; reflexivity.
-    + exists WTailCut. split; [reflexivity|]. cbn [window_of]. unfold lf_index_pos. rewrite E. reflexivity.
-    + exists WTail. split; reflexivity.
-Qed.
 
 (* ---------- Channel.SendInputB (C01, C05, C06, C12) ----------
 
@@ -239,3 +183,9 @@ Theorem send_input_is_source :
        = (flat_map (sact_pacts cfg input o) (fst (sin_expected (o_exact o) (o_eager o) (is_nil (o_interim o)) (fail_src o input rds))),
           snd (sin_expected (o_exact o) (o_eager o) (is_nil (o_interim o)) (fail_src o input rds))).
 Proof. split; [vm_compute; reflexivity | exact send_input_model]. Qed.
+
+(* every test the translated code makes is one the environment above was written for (an unknown
+   equality would otherwise evaluate to false without notice) *)
+Definition send_input_known : list string := "op.ExactMatchInput" :: "err == nil" :: "op.Eager" :: "len(op.InterimPromptPatterns) == 0" :: "readErr == nil" :: "r.err == nil" :: "errors.Is(r.err, context.DeadlineExceeded)" :: nil.
+Lemma send_input_tests_known : tests_known send_input_code send_input_known = true.
+Proof. vm_compute. reflexivity. Qed.
